@@ -187,6 +187,7 @@ def gen_dispatchers():
                 T = f"{name}Response{fr}"
                 cl.append(f"alias res.(*{T}).Data := data[{o+3}:{o+3}+int(data[{o+2}])] if err == nil && data[{o+1}] == {fc}")
         cl.append("ensures[C10,C02] err != nil ==> nilish(res)")
+        cl.append("ensures[C10.valueorerror,C02] err == nil ==> !nilish(res)")
         if crc:
             cl.append("ensures[C03,C12] len(data) >= 4 && !crcTrailer(data, len(data)) ==> err == ErrInvalidCRC && nilish(res)")
             cl.append("ensures[C03,C12] len(data) < 4 ==> err != nil && err != ErrInvalidCRC && dyntype(err) != *ErrorResponseRTU")
